@@ -20,6 +20,12 @@ def many(n, blocked=2):
     return ("tx", grams, [("w",)] * blocked + [("a", 1)], ["g"] + ["o"] * blocked + ["g", "g"])
 
 
+def stall(peer, k, errs=("EAGAIN", "ENOBUFS")):
+    """k CONSECUTIVE would-blocks from the socket under the real Peer.send (a receiver that is only slow), then it takes the data: nothing may be dropped"""
+    sock = [("e", errs[i % len(errs)]) for i in range(k)] + [("a", 3)]
+    return ("txp", peer, [(b"slow-peer-gram", 1), (b"next", 2)], sock, ["g"] * (k + 4))
+
+
 def held0(case):
     """the remainder (bytes, dst) the application restored into .txbs at construction, or None"""
     n = 5 if case[0] == "txp" else 4
@@ -88,7 +94,9 @@ class C21(core.Check):
             ("txp", "uxd", g2, [("a", 2), ("x", "timeout")], ["g", "g", "g"]),
             ("txp", "uxd", g2, [("x", "gaierror")], ["g", "g"]),
             ("tx", g2, [("a", 4)], ["g", "c", "g", "o", ("q", b"while-closed", 2), "r", "g", "g", "g"]),       # closed in between: nothing sent, nothing lost
-            many(2 ** 16 + 2),                                                     # more than 65535 grams pending at once: every one is sent, in order
+            many(2 ** 16 + 2),
+            stall("uxd", 127), stall("uxd", 129), stall("udp", 129), stall("uxd", 257, ("EAGAIN",)), stall("udp", 513, ("ENOBUFS", "ENOMEM")),
+            stall("uxd", 1025), stall("udp", 1023, ("EWOULDBLOCK",)),             # would-block RUN LENGTH as a size dimension                                                     # more than 65535 grams pending at once: every one is sent, in order
             ("tx", g2, [("a", 2)], ["g", "g", "g"], (b"restored-rest", 2)),       # the application restores a remainder into .txbs and owns .txgs / .txms
             ("tx", [], [], ["g"], (b"r", 1)),
             ("tx", g2, [("w",)], ["g", "c", "r", "g", "g"]),                     # a gram held with 0 bytes accepted survives close() / reopen()
@@ -112,6 +120,10 @@ class C21(core.Check):
         for k in range(6, 17):
             for n in (2 ** k - 1, 2 ** k, 2 ** k + 1):
                 cs.append(many(n, blocked=1 + k % 3))
+        for j in range(1, 14):
+            for k in (2 ** j - 1, 2 ** j, 2 ** j + 1):
+                cs.append(stall(("uxd", "udp")[j % 2], k))
+                cs.append(stall(("udp", "uxd")[j % 2], k, ("ENOMEM", "EAGAIN", "ENOBUFS")))
         return cs, "long queues of 2**k-1, 2**k, 2**k+1 tiny grams (k = 6..16) behind a blocked transport that then drains; 2 grams (2 and 3 bytes) x all scripts of length 3 over {accept 0,1,2,all | would-block | ECONNREFUSED} x 3 call patterns"
 
     def generate(self, rng, n, tier):
